@@ -4,3 +4,6 @@ package zenodb
 
 // verifEvent is a verification hook. Without the "verif" build tag it is a no-op.
 func verifEvent(name string, table string, args ...interface{}) {}
+
+// verifCountProcessed is a verification hook. Without the "verif" build tag it is a no-op.
+func verifCountProcessed(t *table) {}
